@@ -1,0 +1,22 @@
+//go:build verif
+
+package rpcutil
+
+// Contracts for the govc verifier (/verif). Comment-only.
+// Context and reply-slice helpers: they build contexts / reply holders and touch no cluster state (not verified).
+
+//@ func CtxsWithCancel
+//@   opts trusted
+//@   modifies nothing
+
+//@ func CtxsWithTimeout
+//@   opts trusted
+//@   modifies nothing
+
+//@ func MultiCancel
+//@   opts trusted
+//@   modifies nothing
+
+//@ func RPCDiscardReplies
+//@   opts trusted
+//@   modifies nothing
